@@ -137,6 +137,7 @@ func (r *runner) genC02(seed int64, ndb, nq, depth int, only onlySet) {
 	for d := 0; d < ndb; d++ {
 		// every database is generated from its own seed so that one case can be re-run in isolation
 		g := sqlgen.New(seed*1000003 + int64(d))
+		g.Decimals = d%2 == 0
 		tabs := g.Schema(2 + g.R.Intn(2))
 		var s *eng.Session
 		for k := 0; k < nq; k++ {
